@@ -432,6 +432,158 @@ fn run_family(fam: Family, shard: usize, ctx: &mut Ctx) {
     }
 }
 
+
+// ------------------------------------------------------------------------------ long sequences
+//
+// The lattice families stop at T <= 6, where all operands of one log-sum-exp are within a few
+// nats of each other.  Long sequences put hundreds of nats between them (the regime of the fast
+// exponential's cut-off and of f64 underflow).  Path enumeration is impossible here; the oracle
+// is the textbook forward / max-plus recursion in log space with libm's exact exp/ln.
+
+fn lse(xs: &[f64]) -> f64 {
+    let m = xs.iter().cloned().fold(f64::NEG_INFINITY, f64::max);
+    if m == f64::NEG_INFINITY {
+        return m;
+    }
+    m + xs.iter().map(|&x| (x - m).exp()).sum::<f64>().ln()
+}
+
+fn long_specs() -> Vec<Spec> {
+    let mut v = vec![];
+    let base: Vec<(Vec<u8>, Vec<u8>, Vec<u8>)> = vec![
+        (vec![10, 0, 0, 10], vec![9, 1, 1, 9], vec![5, 5]), // two non-communicating states
+        (vec![9, 1, 0, 10], vec![9, 1, 2, 8], vec![10, 0]), // left-to-right
+        (vec![7, 3, 4, 6], vec![9, 1, 1, 9], vec![5, 5]),   // ergodic
+        (vec![5, 5, 5, 5], vec![10, 0, 1, 9], vec![5, 5]),  // one state cannot emit symbol 1
+    ];
+    for (t, e, i) in base {
+        for end in [None, Some(vec![5u8, 5]), Some(vec![10u8, 1])] {
+            v.push(Spec { s: 2, m: 2, den: 10, trans: t.clone(), em: e.clone(), init: i.clone(), end });
+        }
+    }
+    for end in [None, Some(vec![3u8])] {
+        v.push(Spec { s: 1, m: 2, den: 10, trans: vec![10], em: vec![1, 9], init: vec![10], end });
+    }
+    v
+}
+
+fn long_lengths(tier: Tier) -> Vec<usize> {
+    let mut v = vec![64usize, 200, 320, 324, 330, 339, 400, 709, 1000];
+    if tier == Tier::Thorough {
+        v.extend(300..=345);
+        v.extend(700..=760);
+        v.push(3000);
+    }
+    v.sort();
+    v.dedup();
+    v
+}
+
+fn long_obs(shape: usize, t: usize) -> Vec<usize> {
+    (0..t)
+        .map(|i| match shape {
+            0 => 0,
+            1 => 1,
+            2 => i % 2,
+            _ => (i >= t / 2) as usize,
+        })
+        .collect()
+}
+
+fn check_long(spec: &Spec, obs: &[usize], cc: &mut CaseCtx) {
+    let t = obs.len();
+    let (s, m) = (spec.s, spec.m);
+    let ln = |k: u8| (k as f64 / spec.den as f64).ln();
+    let end: Vec<f64> = match &spec.end {
+        Some(e) => e.iter().map(|&k| ln(k)).collect(),
+        None => vec![0.0; s],
+    };
+    // oracle: forward and max-plus in log space
+    let mut alpha: Vec<f64> = (0..s).map(|j| ln(spec.init[j]) + ln(spec.em[j * m + obs[0]])).collect();
+    let mut delta = alpha.clone();
+    for &o in &obs[1..] {
+        let na: Vec<f64> = (0..s)
+            .map(|j| lse(&(0..s).map(|i| alpha[i] + ln(spec.trans[i * s + j])).collect::<Vec<_>>()) + ln(spec.em[j * m + o]))
+            .collect();
+        let nd: Vec<f64> = (0..s)
+            .map(|j| (0..s).map(|i| delta[i] + ln(spec.trans[i * s + j])).fold(f64::NEG_INFINITY, f64::max) + ln(spec.em[j * m + o]))
+            .collect();
+        alpha = na;
+        delta = nd;
+    }
+    let want_lik = lse(&(0..s).map(|j| alpha[j] + end[j]).collect::<Vec<_>>());
+    let want_vit = (0..s).map(|j| delta[j] + end[j]).fold(f64::NEG_INFINITY, f64::max);
+    cc.set_nontrivial(want_lik > f64::NEG_INFINITY && t >= 300);
+    cc.outcome(&(want_lik.to_bits(), want_vit.to_bits()));
+    let built = build(spec);
+    let model = match &built.end_model {
+        Ok(mdl) => mdl,
+        Err(e) => {
+            cc.violation("C14/construct/long-sequence/rejected", e.clone());
+            return;
+        }
+    };
+    let tol = (t as f64 + 1.0) * 1.005f64.ln() + 1e-9;
+    let vtol = 1e-9 * (t as f64 + 1.0) * (1.0 + want_vit.abs().min(1e6));
+    for (name, r) in [("forward", guard(|| *forward(model, obs).1)), ("backward", guard(|| *backward(model, obs).1))] {
+        match r {
+            Err(p) => cc.violation(format!("C14/{}/long-sequence/panic", name), p),
+            Ok(x) => {
+                if x.is_nan() || x == f64::INFINITY {
+                    cc.violation(format!("C14/{}/long-sequence/nan-or-inf", name), format!("T={} result {}", t, x));
+                } else if want_lik == f64::NEG_INFINITY {
+                    if x != f64::NEG_INFINITY {
+                        cc.violation(format!("C14/{}/long-sequence/impossible-sequence-nonzero", name), format!("T={} ln p = {}", t, x));
+                    }
+                } else if !((x - want_lik).abs() <= tol) {
+                    cc.violation(format!("C14/{}/long-sequence/differs-from-log-space-recursion", name), format!("T={} ln p = {} expected {} (tolerance {})", t, x, want_lik, tol));
+                } else if x < want_vit - tol {
+                    cc.violation(format!("C14/{}/long-sequence/below-viterbi", name), format!("T={} ln p = {} viterbi {}", t, x, want_vit));
+                }
+            }
+        }
+    }
+    match guard(|| viterbi(model, obs)) {
+        Err(p) => cc.violation("C14/viterbi/long-sequence/panic", p),
+        Ok((path, lp)) => {
+            let x = *lp;
+            if x.is_nan() || x == f64::INFINITY {
+                cc.violation("C14/viterbi/long-sequence/nan-or-inf", format!("T={} result {}", t, x));
+            } else if path.len() != t || path.iter().any(|st| **st >= s) {
+                cc.violation("C14/viterbi/long-sequence/path-malformed", format!("T={} path length {}", t, path.len()));
+            } else if want_vit == f64::NEG_INFINITY {
+                if x != f64::NEG_INFINITY {
+                    cc.violation("C14/viterbi/long-sequence/impossible-sequence-nonzero", format!("T={} ln p = {}", t, x));
+                }
+            } else {
+                let pj: f64 = {
+                    let mut a = ln(spec.init[*path[0]]) + ln(spec.em[*path[0] * m + obs[0]]);
+                    for i in 1..t {
+                        a += ln(spec.trans[*path[i - 1] * s + *path[i]]) + ln(spec.em[*path[i] * m + obs[i]]);
+                    }
+                    a + end[*path[t - 1]]
+                };
+                if !((x - want_vit).abs() <= vtol) {
+                    cc.violation("C14/viterbi/long-sequence/path-not-maximal", format!("T={} reported {} maximum {}", t, x, want_vit));
+                } else if !((x - pj).abs() <= vtol) {
+                    cc.violation("C14/viterbi/long-sequence/reported-differs-from-path-joint", format!("T={} reported {} path joint {}", t, x, pj));
+                }
+            }
+        }
+    }
+}
+
+fn run_long(tier: Tier, ctx: &mut Ctx) {
+    for (si, spec) in long_specs().iter().enumerate() {
+        for t in long_lengths(tier) {
+            for shape in 0..4 {
+                let obs = long_obs(shape, t);
+                ctx.case(|| json!({"kind": "long", "spec_index": si, "t": t, "shape": shape}), |cc| check_long(spec, &obs, cc));
+            }
+        }
+    }
+}
+
 fn unit_table(tier: Tier) -> Vec<(Family, usize)> {
     let mut v = vec![];
     for f in families(tier) {
@@ -450,7 +602,7 @@ impl Prop for C14Prop {
         "exploration"
     }
     fn rule(&self) -> &'static str {
-        "Complete sweep, per family (S states, M symbols, lattice denominator d, length bound T): every model whose transition rows, emission rows and initial vector are sub-stochastic vectors of multiples of 1/d (zero rows and zero vectors included), combined with 'no end vector' and with every end vector of multiples of 1/d (families marked 'few': a fixed handful), times every observation sequence of length 1..T; one case = one (model, observation sequence) pair, each enumerated once. Models without end vector are run on both discrete_emission::Model and discrete_emission_opt_end::Model. Non-trivial: at least two state paths have positive joint probability with the observations."
+        "Complete sweep, per family (S states, M symbols, lattice denominator d, length bound T): every model whose transition rows, emission rows and initial vector are sub-stochastic vectors of multiples of 1/d (zero rows and zero vectors included), combined with 'no end vector' and with every end vector of multiples of 1/d (families marked 'few': a fixed handful), times every observation sequence of length 1..T; one case = one (model, observation sequence) pair, each enumerated once. Models without end vector are run on both discrete_emission::Model and discrete_emission_opt_end::Model. Non-trivial: at least two state paths have positive joint probability with the observations. Plus a long-sequence family (14 fixed models x 4 observation shapes x lengths 64..1000/3000, every length 300..345 and 700..760 in the thorough tier) checked against a log-space recursion; non-trivial there: T >= 300 and the sequence is possible."
     }
     fn assumptions(&self) -> Vec<&'static str> {
         vec![
@@ -479,16 +631,32 @@ impl Prop for C14Prop {
                 })
             })
             .collect();
-        json!({ "families": fams })
+        json!({ "families": fams, "long_sequences": {"models": long_specs().len(), "lengths": long_lengths(tier), "observation_shapes": "all 0, all 1, alternating, half/half", "oracle": "log-space forward and max-plus recursion with libm exp/ln"} })
     }
     fn units(&self, tier: Tier) -> Vec<String> {
-        unit_table(tier).iter().map(|(f, sh)| format!("{}-{}", f.name, sh)).collect()
+        let mut v: Vec<String> = unit_table(tier).iter().map(|(f, sh)| format!("{}-{}", f.name, sh)).collect();
+        v.push("long-sequences".into());
+        v
     }
     fn run_unit(&self, tier: Tier, unit: usize, ctx: &mut Ctx) {
-        let (fam, sh) = unit_table(tier)[unit];
+        let table = unit_table(tier);
+        if unit >= table.len() {
+            return run_long(tier, ctx);
+        }
+        let (fam, sh) = table[unit];
         run_family(fam, sh, ctx);
     }
     fn replay(&self, case: &Value, ctx: &mut Ctx) {
+        if case["kind"] == "long" {
+            let si = case["spec_index"].as_u64().unwrap_or(0) as usize;
+            let t = case["t"].as_u64().unwrap_or(1) as usize;
+            let shape = case["shape"].as_u64().unwrap_or(0) as usize;
+            let specs = long_specs();
+            let spec = &specs[si.min(specs.len() - 1)];
+            let obs = long_obs(shape, t);
+            ctx.case(|| case.clone(), |cc| check_long(spec, &obs, cc));
+            return;
+        }
         match undescribe(case) {
             Some((spec, obs)) => {
                 let built = build(&spec);
